@@ -184,6 +184,7 @@ func registerExtlib(ex *Executor) {
 		}
 		fail := smt.App("json_fails", smt.Bool, shape)
 		if ex.branch(st, fail) {
+			st.ND = append(st.ND[:len(st.ND):len(st.ND)], NDRec{Kind: "ext-fail", Tag: "json.Encode fails", T: smt.True})
 			es := ex.lookupType("errors", "errorString")
 			ep := ex.alloc(st, es, "json-error", &StructV{[]Val{smt.StrC("json: unsupported value")}})
 			st.note("json.Encode fails")
